@@ -15,7 +15,7 @@ import (
 	"github.com/gardenbed/emerge/verif/ref/ebnfref"
 )
 
-var handlePool = []string{`"+"`, `"*"`, `TK`, `< e = e e >`, `< e = e ( a | b ) e >`, `< e = a | b >`, `< e = [ a ] e | >`, `< f = { a } >`, `< f = >`}
+var handlePool = []string{`"+"`, `"*"`, `TK`, `< e = e e >`, `< e = e ( a | b ) e >`, `< e = a | b >`, `< e = [ a ] e | >`, `< f = { a } >`, `< f = >`, `< e = "-" e >`, `< f = a TK | "/" >`}
 
 const prelude = "TK = \"t\" ;\nstart = e f ;\ne = \"x\" ;\nf = \"y\" ;\na = \"p\" ;\nb = \"q\" ;\n"
 
